@@ -124,19 +124,8 @@ theorem umode_never_grants (cfg : Cfg) (cn : Conn) (nick : Str) (a : UModeAcc) (
 theorem mode_user_never_grants (cfg : Cfg) (c : Nat) (target : Str) (modes : List (Str × List Str))
     (x : Ctx) (n : Str) :
     (operOf (processModeUser cfg c target modes x).w n = true → operOf x.w n = true) ∧
-    (localOperOf (processModeUser cfg c target modes x).w n = true → localOperOf x.w n = true) := by
-  obtain ⟨m, hm, hus, _⟩ := processModeUser_effect cfg c target modes x
-  unfold operOf localOperOf
-  rw [hus, Map.lookup_modify]
-  by_cases ht : target = n
-  · subst ht
-    cases hl : Map.lookup target x.w.users with
-    | none => simp
-    | some u =>
-      obtain ⟨h1, h2⟩ := hm u hl
-      simp only [↓reduceIte, Option.map_some]
-      exact ⟨h1, fun h => h2 ▸ h⟩
-  · simp [ht]
+    (localOperOf (processModeUser cfg c target modes x).w n = true → localOperOf x.w n = true) :=
+  processModeUser_noRise cfg c target modes x n
 
 /-- `+o` by a user without `+o` (resp. `+O` without `+O`): exactly one 481 line, nothing else -/
 theorem mode_user_plus_o_refused (cfg : Cfg) (c : Nat) (target : Str) (args : List Str) (x : Ctx)
@@ -489,5 +478,180 @@ theorem stats_requires_local_oper (cfg : Cfg) (c : Nat) (stat : Char) (x : Ctx) 
           intro y b; split <;> exact ⟨rfl, rfl⟩
         · rfl
     · simp
+
+example : (processStats exCfg 1 'u' none exCtx).direct =
+    [str ":irc.irc 481 alice :Permission Denied- You're not an IRC operator"] := by decide
+example : (processStats exCfg 3 'u' none exCtx).direct =
+    [str ":irc.irc 242 carol :Server Up 0 days 0:00:00", str ":irc.irc 219 carol u :End of STATS report"] := by
+  decide
+
+/-! ## 4. operator status rises only through OPER (or default modes at registration) -/
+
+/-- THE MAIN THEOREM, over all 41 commands.  If nick `n` is an operator after a dispatched command
+    and was not one before, then
+    (a) the command is `OPER name pw` sent by `n` itself (an existing user) and the specification
+        `OperGranted` holds (configured operator, its password, mask matches the source); or
+    (b) `n` was not a user before, and either
+        - it was created by the registration (CAP/PASS/NICK/USER) of the acting, so far
+          unauthenticated connection, which owns it, and `cfg.defaultUserModes.oper = true`; or
+        - the command is `NICK n` by a registered connection whose old nick `o` was an operator:
+          the entry moved from `o` (now gone) to `n` (status follows the identity, C15). -/
+theorem oper_rises_only_by_oper (cfg : Cfg) (x : Ctx) (c : Nat) (msg : Message) (cmd : Command) (n : Str) :
+    let x' := dispatch cfg c msg cmd x
+    operOf x'.w n = true → operOf x.w n = false →
+    (∃ name pw, cmd = .OPER name pw ∧ (x.conn c).nick = some n ∧
+        (∃ u, Map.lookup n x.w.users = some u) ∧ OperGranted cfg (x.conn c).source name pw) ∨
+    (Map.lookup n x.w.users = none ∧
+      ((cfg.defaultUserModes.oper = true ∧ isRegCmd cmd = true ∧ (x.conn c).authenticated = false ∧
+          ∃ u, Map.lookup n x'.w.users = some u ∧ u.owner = c) ∨
+       (cmd = .NICK n ∧ (x.conn c).authenticated = true ∧
+          ∃ o, (x.conn c).nick = some o ∧ operOf x.w o = true ∧ Map.lookup o x'.w.users = none))) := by
+  intro x' h1 h0
+  rcases dispatch_entry_cases cfg c msg cmd x n with hA | ⟨name, pw, u, hc, hn, hu, hg, _⟩ |
+      ⟨hl, hr, ha, u, hu, ho, hm, _⟩ | ⟨hl, hc, ha, o, user, src, hn, hu, hnew, hold⟩
+  · have := hA.1 h1; rw [h0] at this; cases this
+  · exact Or.inl ⟨name, pw, hc, hn, ⟨u, hu⟩, hg⟩
+  · right
+    refine ⟨hl, Or.inl ⟨?_, hr, ha, u, hu, ho⟩⟩
+    have : operOf x'.w n = u.modes.oper := by
+      show operOf (dispatch cfg c msg cmd x).w n = _
+      simp [operOf, hu]
+    rw [← hm, ← this]; exact h1
+  · right
+    refine ⟨hl, Or.inr ⟨hc, ha, o, hn, ?_, hold⟩⟩
+    have : operOf x'.w n = user.modes.oper := by
+      show operOf (dispatch cfg c msg cmd x).w n = _
+      simp [operOf, hnew]
+    rw [this] at h1
+    simp [operOf, hu, h1]
+
+/-- The same for local-operator status (`+O`): no command confers it.  It can only appear on a
+    nick that was not a user before: through the configured default modes at registration, or by
+    moving with its owner's NICK change. -/
+theorem local_oper_never_rises (cfg : Cfg) (x : Ctx) (c : Nat) (msg : Message) (cmd : Command) (n : Str) :
+    let x' := dispatch cfg c msg cmd x
+    localOperOf x'.w n = true → localOperOf x.w n = false →
+    Map.lookup n x.w.users = none ∧
+      ((cfg.defaultUserModes.localOper = true ∧ isRegCmd cmd = true ∧ (x.conn c).authenticated = false ∧
+          ∃ u, Map.lookup n x'.w.users = some u ∧ u.owner = c) ∨
+       (cmd = .NICK n ∧ (x.conn c).authenticated = true ∧
+          ∃ o, (x.conn c).nick = some o ∧ localOperOf x.w o = true ∧ Map.lookup o x'.w.users = none)) := by
+  intro x' h1 h0
+  rcases dispatch_entry_cases cfg c msg cmd x n with hA | ⟨name, pw, u, hc, hn, hu, hg, hnew⟩ |
+      ⟨hl, hr, ha, u, hu, ho, _, hm⟩ | ⟨hl, hc, ha, o, user, src, hn, hu, hnew, hold⟩
+  · have := hA.2 h1; rw [h0] at this; cases this
+  · -- OPER does not touch `localOper`
+    exfalso
+    have e1 : localOperOf x'.w n = u.modes.localOper := by
+      show localOperOf (dispatch cfg c msg cmd x).w n = _
+      simp [localOperOf, hnew]
+    have e0 : localOperOf x.w n = u.modes.localOper := by simp [localOperOf, hu]
+    rw [e1] at h1; rw [e0, h1] at h0; cases h0
+  · refine ⟨hl, Or.inl ⟨?_, hr, ha, u, hu, ho⟩⟩
+    have : localOperOf x'.w n = u.modes.localOper := by
+      show localOperOf (dispatch cfg c msg cmd x).w n = _
+      simp [localOperOf, hu]
+    rw [← hm, ← this]; exact h1
+  · refine ⟨hl, Or.inr ⟨hc, ha, o, hn, ?_, hold⟩⟩
+    have : localOperOf x'.w n = user.modes.localOper := by
+      show localOperOf (dispatch cfg c msg cmd x).w n = _
+      simp [localOperOf, hnew]
+    rw [this] at h1
+    simp [localOperOf, hu, h1]
+
+/-- per-command form for the 36 commands that are neither OPER nor a registration command:
+    no operator flag of any nick rises. -/
+theorem other_commands_never_grant (cfg : Cfg) (x : Ctx) (c : Nat) (msg : Message) (cmd : Command)
+    (h : isSpecial cmd = false) (n : Str) :
+    (operOf (dispatch cfg c msg cmd x).w n = true → operOf x.w n = true) ∧
+    (localOperOf (dispatch cfg c msg cmd x).w n = true → localOperOf x.w n = true) :=
+  dispatch_keeps_oper cfg c x msg cmd h n
+
+/-- the same through `handleLine` (parse, count, registration gate, dispatch): a line that raises
+    `n` to operator parses to a command for which `oper_rises_only_by_oper` applies. -/
+theorem handleLine_oper_rise (cfg : Cfg) (c : Nat) (s : Str) (x : Ctx) (n : Str)
+    (h1 : operOf (handleLine cfg c s x).w n = true) (h0 : operOf x.w n = false) :
+    ∃ msg cmd, Message.parse s = .ok msg ∧ Command.fromMessage msg = .ok cmd ∧
+      handleLine cfg c s x = dispatch cfg c msg cmd (x.modifyW (fun w => bumpCount w cmd.id.index)) := by
+  have hno : ∀ y : Ctx, y.w.users = x.w.users → operOf y.w n = true → False := by
+    intro y e h
+    have : operOf y.w n = operOf x.w n := by unfold operOf; rw [e]
+    rw [this, h0] at h; cases h
+  cases hp : Message.parse s with
+  | error e =>
+    exfalso
+    cases e <;> (unfold handleLine at h1; simp only [hp] at h1; exact hno _ rfl h1)
+  | ok msg =>
+    cases hc : Command.fromMessage msg with
+    | error e =>
+      exfalso
+      unfold handleLine at h1; simp only [hp, hc] at h1; exact hno _ rfl h1
+    | ok cmd =>
+      refine ⟨msg, cmd, rfl, hc, ?_⟩
+      unfold handleLine at h1 ⊢
+      simp only [hp, hc] at h1 ⊢
+      split
+      · exfalso
+        rename_i hg
+        simp only [hg, ↓reduceIte] at h1
+        exact hno _ rfl h1
+      · rfl
+
+-- examples: each disjunct of the conclusion occurs
+example : operOf (dispatch exCfg 1 ⟨none, str "OPER", []⟩ (.OPER (str "root") (str "pw")) exCtx).w (str "alice") = true ∧
+    operOf exCtx.w (str "alice") = false := by decide
+-- registration with default `+o`
+example :
+    let cfg : Cfg := { defaultUserModes := { oper := true } }
+    let w : World := { conns := [{ id := 7, hostname := str "h", name := some (str "u"), source := str "~u@h" }], connsCount := 1 }
+    operOf (dispatch cfg 7 ⟨none, str "NICK", []⟩ (.NICK (str "dave")) { w := w }).w (str "dave") = true := by decide
+-- rename of an operator
+example : operOf (dispatch exCfg 3 ⟨none, str "NICK", [str "carla"]⟩ (.NICK (str "carla")) exCtx).w (str "carla") = true ∧
+    operOf (dispatch exCfg 3 ⟨none, str "NICK", [str "carla"]⟩ (.NICK (str "carla")) exCtx).w (str "carol") = false := by
+  decide
+
+/-! ## losing operator status: `MODE -o`, disconnecting -/
+
+/-- `MODE nick -o` (also spelled `-O`, see the note below) by an operator drops `+o`. -/
+theorem oper_lost_by_minus_o (cfg : Cfg) (c : Nat) (target : Str) (args : List Str) (x : Ctx) :
+    operOf (processModeUser cfg c target [(['-', 'o'], args)] x).w target = false ∧
+    operOf (processModeUser cfg c target [(['-', 'O'], args)] x).w target = false := by
+  constructor <;>
+  · cases hu : Map.lookup target x.w.users with
+    | none => simp [processModeUser, hu, operOf]
+    | some u =>
+      cases ho : u.modes.oper <;> cases hl : u.modes.localOper <;>
+        simp [processModeUser, hu, umodeChar, ho, hl, operOf, Map.lookup_modify, Ctx.modifyW, ite_world_users]
+
+/-- MODEL/CODE ODDITY (faithful to `srv_query_cmds.rs`): no MODE letter ever changes `localOper`
+    (`-O` clears `oper` instead), so `+O` obtained from the default user modes can never be
+    dropped by its holder; it ends only with the session. -/
+theorem mode_user_localOper_unchanged (cfg : Cfg) (c : Nat) (target : Str) (modes : List (Str × List Str))
+    (x : Ctx) (n : Str) :
+    localOperOf (processModeUser cfg c target modes x).w n = localOperOf x.w n := by
+  obtain ⟨m, hm, hus, _⟩ := processModeUser_effect cfg c target modes x
+  unfold localOperOf
+  rw [hus, Map.lookup_modify]
+  by_cases ht : target = n
+  · subst ht
+    cases hl : Map.lookup target x.w.users with
+    | none => simp
+    | some u => simp [(hm u hl).2]
+  · simp [ht]
+
+/-- disconnecting: tearing down the connection registered as `n` removes user `n`, so `n` holds
+    neither flag afterwards (a later user of that nick starts from the default modes). -/
+theorem oper_lost_by_disconnect (w : World) (c : Nat) (cn : Conn) (n : Str)
+    (hc : w.conn? c = some cn) (ha : cn.authenticated = true) (hn : cn.nick = some n) :
+    Map.lookup n (teardown w c).users = none ∧
+    operOf (teardown w c) n = false ∧ localOperOf (teardown w c) n = false := by
+  have h : Map.lookup n (teardown w c).users = none := by
+    unfold teardown
+    simp only [hc, ha, hn, ↓reduceIte]
+    exact removeUser_lookup_self _ n
+  exact ⟨h, by simp [operOf, h], by simp [localOperOf, h]⟩
+
+example : localOperOf (processModeUser exCfg 1 (str "a") [(str "-O", [])]
+    { w := { users := [(str "a", exUser 1 "a!~u@h" { localOper := true })] } }).w (str "a") = true := by decide
 
 end Irc.C11
